@@ -208,11 +208,13 @@ func instr(in ssa.Instruction) J {
 		j["op"] = "Index"
 		j["x"] = val(x.X)
 		j["index"] = val(x.Index)
+		j["itype"] = typeID(x.Index.Type())
 		j["xtype"] = typeID(x.X.Type())
 	case *ssa.IndexAddr:
 		j["op"] = "IndexAddr"
 		j["x"] = val(x.X)
 		j["index"] = val(x.Index)
+		j["itype"] = typeID(x.Index.Type())
 		j["xtype"] = typeID(x.X.Type())
 	case *ssa.Jump:
 		j["op"] = "Jump"
